@@ -20,11 +20,16 @@
      stripped value of a kept entry does not depend on that order, and [collect] walks the result.)
    * The worklist loop `while index < refs.len()` is recursion on fuel with the out-of-fuel value
      [None]; Proofs/EditProofsTrav.v shows [trav_fuel] always suffices. *)
-From LV Require Import Base.Bytes Base.Sx Model.Obj Model.DocQ Model.PageTree Model.Traverse Gen.Consts.
+From LV Require Import Base.Bytes Base.Sx Model.Obj Model.DocQ Model.PageTree Model.Traverse Gen.Consts
+  Gen.Filters Model.A85 Model.Png Model.StreamFilt Model.Writer Model.Renumber.
 
-Definition U32_MAX : N := 4294967295.
+Definition I64_MIN : Z := (-9223372036854775808)%Z.
 
 Definition K_Annots := Eval cbv in bs "Annots".
+Definition K_Contents := Eval cbv in bs "Contents".
+Definition K_Resources := Eval cbv in bs "Resources".
+Definition K_XObject := Eval cbv in bs "XObject".
+Definition K_ExtGState := Eval cbv in bs "ExtGState".
 
 (* ------------------------------------------------------------------------------------------ *)
 (* third-party code (flate2, weezl): see Model/StreamFilt.v; carried as a record so that [step]
@@ -42,7 +47,19 @@ Inductive op :=
 | SetObject (id : oid) (o : obj)
 | DeleteObject (id : oid)
 | RemoveAnnot (id : oid)            (* Document::remove_object *)
-| PruneObjects.
+| PruneObjects
+| DeletePages (nums : list N)
+| RenumberObjects
+| Compress
+| Decompress
+| ChangeContentStream (id : oid) (c : bytes)
+| ChangePageContent (page : oid) (c : bytes)
+| AddPageContents (page : oid) (c : bytes)
+| AddToPageContent (page : oid) (ops : list operation)
+| GetOrCreateResources (page : oid)
+| AddXObject (page : oid) (name : bytes) (x : oid)
+| AddGraphicsState (page : oid) (name : bytes) (g : oid)
+| GetPageContent (page : oid).      (* observation only: Document::get_page_content *)
 
 Inductive out :=
 | OUnit
@@ -52,6 +69,9 @@ Inductive out :=
 | OOk
 | OErr
 | OPanic
+| OOkObj (o : obj)                  (* Ok(&mut Object): the object the reference points at *)
+| OBytes (r : option bytes)         (* Result<Vec<u8>> *)
+| OHang                             (* the Rust loop does not terminate (cyclic Parent chain) *)
 | OFuel.                            (* the model ran out of fuel: excluded by the theorems *)
 
 Definition with_max (d : doc) (mx : N) : doc :=
@@ -208,6 +228,302 @@ Definition remove_annot (d : doc) (target : oid) : doc * bool :=
   let '(m, ok) := remove_annot_loop target (map snd (get_pages d)) (d_objects d) in
   (with_objs d m, ok).
 
+(* ---------------- processor.rs: delete_pages ---------------- *)
+Definition as_ref (o : option obj) : option oid :=
+  match o with Some (ORef i g) => Some (i, g) | _ => None end.
+
+Inductive loop_res := LOk | LPanic | LHang | LFuel.
+
+(* while let Ok(id) = page_tree_ref {
+     if let Some(pt) = objects.get_mut(&id).and_then(as_dict_mut) {
+        if let Ok(count) = pt.get("Count").as_i64() { pt.set("Count", count - 1) }     -- checked i64 subtraction
+        page_tree_ref = pt.get("Parent").as_reference() } else { break } }
+   A chain without a cycle visits at most |objects| nodes; running out of [fuel] = |objects| + 1 means the
+   Parent chain is cyclic and the Rust loop keeps going (until a Count underflows, 2^63 rounds later). *)
+Fixpoint count_loop (fuel : nat) (m : objmap) (r : option oid) : objmap * loop_res :=
+  match r with
+  | None => (m, LOk)
+  | Some id =>
+    match fuel with
+    | O => (m, LHang)
+    | S k =>
+      match lookup m id with
+      | Some (ODict pt) =>
+        match dict_get pt K_Count with
+        | Some (OInt c) =>
+          if (c =? I64_MIN)%Z then (m, LPanic)                     (* attempt to subtract with overflow *)
+          else let pt' := dict_set pt K_Count (OInt (c - 1)) in
+               count_loop k (update m id (ODict pt')) (as_ref (dict_get pt' K_Parent))
+        | _ => count_loop k m (as_ref (dict_get pt K_Parent))
+        end
+      | _ => (m, LOk)
+      end
+    end
+  end.
+
+Fixpoint assoc_N {A} (l : list (N * A)) (n : N) : option A :=
+  match l with [] => None | (k, v) :: l' => if (k =? n)%N then Some v else assoc_N l' n end.
+
+(* let pages = self.get_pages();  for n in page_numbers { if let Some(page) = pages.get(n).and_then(delete_object) {..} } *)
+Fixpoint delete_pages_loop (pages : list (N * oid)) (nums : list N) (d : doc) : doc * loop_res :=
+  match nums with
+  | [] => (d, LOk)
+  | n :: ns =>
+    match assoc_N pages n with
+    | None => delete_pages_loop pages ns d
+    | Some pid =>
+      match delete_object d pid with
+      | None => (d, LFuel)
+      | Some (d1, None) => delete_pages_loop pages ns d1
+      | Some (d1, Some page) =>
+        let r := match page with ODict pd => as_ref (dict_get pd K_Parent) | _ => None end in
+        let '(m2, lr) := count_loop (S (length (d_objects d1))) (d_objects d1) r in
+        match lr with
+        | LOk => delete_pages_loop pages ns (with_objs d1 m2)
+        | _ => (with_objs d1 m2, lr)
+        end
+      end
+    end
+  end.
+
+Definition delete_pages (d : doc) (nums : list N) : doc * loop_res := delete_pages_loop (get_pages d) nums d.
+
+(* ---------------- document.rs: get_page_contents / get_page_content ---------------- *)
+Definition ref_ids (l : list obj) : list oid :=
+  flat_map (fun x => match x with ORef i g => [(i, g)] | _ => [] end) l.
+
+(* loop { match contents { Reference(id) => match objects.get(id) { None | Some(Stream) => push id,
+            Some(o) => { nb_deref += 1; if nb_deref < DEREF_LIMIT { contents = o; continue } } },
+          Array(arr) => push every reference in arr, _ => {} } break } *)
+Fixpoint contents_walk (fuel : nat) (m : objmap) (c : obj) (nb : N) : list oid :=
+  match c with
+  | ORef i g =>
+    match lookup m (i, g) with
+    | None => [(i, g)]
+    | Some (OStream _ _) => [(i, g)]
+    | Some o =>
+      if (nb + 1 <? DEREF_LIMIT)%N then
+        match fuel with S k => contents_walk k m o (nb + 1) | O => [] end
+      else []
+    end
+  | OArr l => ref_ids l
+  | _ => []
+  end.
+
+Definition get_page_contents (m : objmap) (page : oid) : list oid :=
+  match get_dictionary m page with
+  | Some pd => match dict_get pd K_Contents with
+               | Some c => contents_walk (N.to_nat DEREF_LIMIT) m c 0
+               | None => []
+               end
+  | None => []
+  end.
+
+(* for id in content_streams { if let Ok(stream) = get_object(id).as_stream() {
+       match stream.decompressed_content() { Ok(data) => append data, Err(_) => append stream.content } } }
+   None = a panic inside the filter code *)
+Fixpoint page_content_of (O : oracles) (m : objmap) (ids : list oid) : option bytes :=
+  match ids with
+  | [] => Some []
+  | id :: ids' =>
+    match get_object m id with
+    | Some (OStream sd c) =>
+      match decompressed_content (o_inflate O) (o_lzw O) {| s_dict := sd; s_content := c |} with
+      | Ok data => option_map (app data) (page_content_of O m ids')
+      | Err _ => option_map (app c) (page_content_of O m ids')
+      | _ => None
+      end
+    | _ => page_content_of O m ids'
+    end
+  end.
+
+Definition get_page_content (O : oracles) (m : objmap) (page : oid) : option bytes :=
+  page_content_of O m (get_page_contents m page).
+
+(* ---------------- processor.rs: change_content_stream / change_page_content ---------------- *)
+Definition stream_obj (s : stream) : obj := OStream (s_dict s) (s_content s).
+
+(* if let Some(Object::Stream(stream)) = self.objects.get_mut(&id) { set_plain_content; let _ = compress() } *)
+Definition change_content_stream (O : oracles) (d : doc) (id : oid) (content : bytes) : doc :=
+  match lookup (d_objects d) id with
+  | Some (OStream sd c) =>
+    let s := compress (o_deflate O) (set_plain_content {| s_dict := sd; s_content := c |} content) in
+    with_objs d (update (d_objects d) id (stream_obj s))
+  | _ => d
+  end.
+
+(* Stream::new(Dictionary::new(), content) *)
+Definition new_stream (content : bytes) : obj := OStream [(K_Length, len_obj content)] content.
+
+(* the page dictionary reached through get_object_mut(page_id), with one entry set *)
+Definition set_page_entry (m : objmap) (page : oid) (k : bytes) (v : obj) : option objmap :=
+  match get_object_mut_id m page with
+  | Some t => match lookup m t with
+              | Some (ODict td) => Some (update m t (ODict (dict_set td k v)))
+              | _ => None
+              end
+  | None => None
+  end.
+
+Definition change_page_content (O : oracles) (d : doc) (page : oid) (content : bytes) : doc * out :=
+  match get_dictionary (d_objects d) page with
+  | None => (d, OErr)
+  | Some pd =>
+    match dict_get pd K_Contents with
+    | None => (d, OErr)
+    | Some (ORef i g) => (change_content_stream O d (i, g) content, OOk)
+    | Some (OArr [x]) =>
+      match x with
+      | ORef i g => (change_content_stream O d (i, g) content, OOk)
+      | _ => (d, OOk)
+      end
+    | Some (OArr _) =>
+      match add_object d (new_stream content) with
+      | None => (d, OPanic)
+      | Some (d1, nid) =>
+        match set_page_entry (d_objects d1) page K_Contents (ORef (fst nid) (snd nid)) with
+        | Some m2 => (with_objs d1 m2, OOk)
+        | None => (d1, OOk)
+        end
+      end
+    | Some _ => (d, OOk)
+    end
+  end.
+
+(* ---------------- document.rs: add_page_contents; parser_aux.rs: add_to_page_content ---------------- *)
+Definition add_page_contents (d : doc) (page : oid) (content : bytes) : doc * out :=
+  match get_dictionary (d_objects d) page with
+  | None => (d, OErr)
+  | Some pd =>
+    let cur := match dict_get pd K_Contents with
+               | Some (ORef i g) => [ORef i g]
+               | Some (OArr l) => l
+               | _ => []
+               end in
+    match add_object d (new_stream content) with
+    | None => (d, OPanic)
+    | Some (d1, nid) =>
+      match set_page_entry (d_objects d1) page K_Contents (OArr (cur ++ [ORef (fst nid) (snd nid)])) with
+      | Some m2 => (with_objs d1 m2, OOk)
+      | None => (d1, OErr)
+      end
+    end
+  end.
+
+Definition add_to_page_content (d : doc) (page : oid) (ops : list operation) : doc * out :=
+  add_page_contents d page (encode_content ops).
+
+(* ---------------- creator.rs: get_or_create_resources / add_xobject / add_graphics_state ---------------- *)
+(* where the returned &mut Object points: a whole object, or the Resources entry of a dictionary object *)
+Inductive res_loc := RLObj (t : oid) | RLEntry (t : oid).
+
+Definition loc_get (m : objmap) (l : res_loc) : option obj :=
+  match l with
+  | RLObj t => lookup m t
+  | RLEntry t => match lookup m t with Some (ODict td) => dict_get td K_Resources | _ => None end
+  end.
+
+Definition loc_set (m : objmap) (l : res_loc) (o : obj) : objmap :=
+  match l with
+  | RLObj t => update m t o
+  | RLEntry t => match lookup m t with
+                 | Some (ODict td) => update m t (ODict (dict_set td K_Resources o))
+                 | _ => m
+                 end
+  end.
+
+Definition get_or_create_resources (d : doc) (page : oid) : doc * option res_loc :=
+  let m := d_objects d in
+  match get_object m page with
+  | Some (ODict pd) =>
+    match (if dict_has pd K_Resources then as_ref (dict_get pd K_Resources) else None) with
+    | Some rid => (d, option_map RLObj (get_object_mut_id m rid))
+    | None =>
+      match get_object_mut_id m page with
+      | Some t =>
+        match lookup m t with
+        | Some (ODict td) =>
+          let td' := if dict_has td K_Resources then td else dict_set td K_Resources (ODict []) in
+          (with_objs d (update m t (ODict td')), Some (RLEntry t))
+        | _ => (d, None)
+        end
+      | None => (d, None)
+      end
+    end
+  | _ => (d, None)
+  end.
+
+(* if let Ok(resources) = gocr(page).and_then(as_dict_mut) {
+     if !resources.has(key) { resources.set(key, {}) }
+     let mut x = resources.get_mut(key)?;
+     [add_xobject only] if let Reference(r) = x { while let Reference(id) = self.get_object(r)? {..}   -- never iterates:
+                                                   x = self.get_object_mut(r)? }                      -- get_object dereferences
+     x.as_dict_mut()?.set(name, Reference(id)) }
+   Ok(()) *)
+Definition add_resource (follow : bool) (key : bytes) (d : doc) (page : oid) (nm : bytes) (x : oid) : doc * out :=
+  let '(d1, loc) := get_or_create_resources d page in
+  match loc with
+  | None => (d1, OOk)
+  | Some loc =>
+    let m1 := d_objects d1 in
+    match loc_get m1 loc with
+    | Some (ODict rd) =>
+      let rd1 := if dict_has rd key then rd else dict_set rd key (ODict []) in
+      let m2 := loc_set m1 loc (ODict rd1) in
+      let d2 := with_objs d1 m2 in
+      let entry := ORef (fst x) (snd x) in
+      match dict_get rd1 key with
+      | Some (ODict xd) => (with_objs d1 (loc_set m2 loc (ODict (dict_set rd1 key (ODict (dict_set xd nm entry))))), OOk)
+      | Some (ORef i g) =>
+        if follow then
+          match get_object m2 (i, g), get_object_mut_id m2 (i, g) with
+          | Some _, Some t =>
+            match lookup m2 t with
+            | Some (ODict xd) => (with_objs d1 (update m2 t (ODict (dict_set xd nm entry))), OOk)
+            | _ => (d2, OErr)
+            end
+          | _, _ => (d2, OErr)
+          end
+        else (d2, OErr)
+      | _ => (d2, OErr)
+      end
+    | _ => (d1, OOk)
+    end
+  end.
+
+Definition add_xobject := add_resource true K_XObject.
+Definition add_graphics_state := add_resource false K_ExtGState.
+
+(* ---------------- processor.rs: compress / decompress ---------------- *)
+(* every stream built by the harness allows compression *)
+Definition compress_all (O : oracles) (d : doc) : doc := with_objs d (doc_compress (o_deflate O) [] (d_objects d)).
+
+(* for object in objects.values_mut() { if Stream { let _ = stream.decompress() } }: a panic inside one
+   stream leaves the streams before it decompressed *)
+Fixpoint decompress_objs (O : oracles) (m : objmap) : objmap * bool :=
+  match m with
+  | [] => ([], true)
+  | io :: m' =>
+    match snd io with
+    | OStream sd c =>
+      match StreamFilt.decompress (o_inflate O) (o_lzw O) {| s_dict := sd; s_content := c |} with
+      | Ok s => let '(r, ok) := decompress_objs O m' in ((fst io, stream_obj s) :: r, ok)
+      | Err _ => let '(r, ok) := decompress_objs O m' in (io :: r, ok)
+      | _ => (io :: m', false)
+      end
+    | _ => let '(r, ok) := decompress_objs O m' in (io :: r, ok)
+    end
+  end.
+
+(* ---------------- processor.rs: renumber_objects (Model/Renumber.v; the harness document has no bookmarks) ---------------- *)
+Definition renumber (d : doc) : doc * out :=
+  match renumber_objects {| base := d; max_bookmark_id := 0; bookmarks := []; bm_table := [] |} with
+  | Done rd => (base rd, OUnit)
+  | Renumber.Panic => (d, OPanic)       (* needs an object number above u32::MAX: impossible when numbering from 1 *)
+  | StackOverflow => (d, OPanic)
+  | OutOfFuel => (d, OFuel)
+  end.
+
 (* ------------------------------------------------------------------------------------------ *)
 Definition step (O : oracles) (d : doc) (o : op) : doc * out :=
   match o with
@@ -222,6 +538,27 @@ Definition step (O : oracles) (d : doc) (o : op) : doc * out :=
     let '(d', ok) := remove_annot d id in (d', if ok then OOk else OErr)
   | PruneObjects =>
     match prune_objects d with Some (d', ids) => (d', OIds ids) | None => (d, OFuel) end
+  | DeletePages nums =>
+    let '(d', r) := delete_pages d nums in
+    (d', match r with LOk => OUnit | LPanic => OPanic | LHang => OHang | LFuel => OFuel end)
+  | RenumberObjects => renumber d
+  | Compress => (compress_all O d, OUnit)
+  | Decompress =>
+    let '(m, ok) := decompress_objs O (d_objects d) in (with_objs d m, if ok then OUnit else OPanic)
+  | ChangeContentStream id c => (change_content_stream O d id c, OUnit)
+  | ChangePageContent page c => change_page_content O d page c
+  | AddPageContents page c => add_page_contents d page c
+  | AddToPageContent page ops => add_to_page_content d page ops
+  | GetOrCreateResources page =>
+    let '(d', loc) := get_or_create_resources d page in
+    (d', match loc with
+         | Some l => match loc_get (d_objects d') l with Some o => OOkObj o | None => OErr end
+         | None => OErr
+         end)
+  | AddXObject page nm x => add_xobject d page nm x
+  | AddGraphicsState page nm g => add_graphics_state d page nm g
+  | GetPageContent page =>
+    (d, match get_page_content O (d_objects d) page with Some b => OBytes (Some b) | None => OPanic end)
   end.
 
 (* the state after a program, and the trace of outputs *)
